@@ -11,7 +11,7 @@ import (
 )
 
 const header = `From Coq Require Import List NArith Bool.
-From GS Require Import Base Ltree RecLoader ReqExec C02Prefix.
+From GS Require Import Base Ltree RecLoader ReqExec C02Prefix C02Contig.
 Import ListNotations.
 Open Scope N_scope.
 `
@@ -26,6 +26,7 @@ func newWriter(c *drv.Ctx) *cw.Writer {
 		{Name: "MON02", Fn: "d_mon02"},
 		{Name: "MON01", Fn: "d_mon01"},
 		{Name: "TRIEORD", Fn: "d_trie_ordered"}, // the plan guard of C02_holds_guarded holds of every harvested plan
+		{Name: "CONTIG", Fn: "d_contiguous"},    // children of an inline node are visited contiguously (implies trie_ordered: C02_contiguous_trie_ordered)
 		{Name: "MON02G", Fn: "d_mon02_guarded"}, // inside the theorem's guards the implementation's outcome must equal the reference
 	})
 	w.ShardSize = 120 // the plans make the terms large: elaboration, not evaluation, is what costs
